@@ -136,11 +136,17 @@ func runC16(c *eng.Ctx) {
 		c.Check(eng.DerivesFromCall(eng.CallArgs(kh.Instr.(*ssa.Call))[1], h.Instr.(ssa.Value), 0), "stored-hash-is-that-hash", kh.Instr, m, "the stored KvsHash is that hash", "")
 		// deDupTags: sort then compact, result stored back
 		d := c.Fn(cvtT + ".deDupTags")
-		so := c.One(d, eng.CallTo("sort.Sort"), "sort.Sort(kvs)")
+		so := c.One(d, eng.CallTo("sort.Sort", "sort.Stable", "sort.SliceStable", "slices.SortStableFunc"), "sort.Stable(kvs)")
 		for i, s := range c.Some(d, eng.StoreField(pmT+".Tags"), "m.Tags = m.Tags[:slow+1]") {
 			c.Check(eng.DominatedBy(d, s.Instr, []eng.Site{so}, nil), fmt.Sprintf("sort<compact[%d]", i), s.Instr, d, "tags are sorted before duplicates are compacted (a repeated key resolves to one value)", "")
 		}
 		c.Check(eng.DependsOnField(eng.CallArgs(so.Instr.(*ssa.Call))[0], pmT+".Tags"), "sorts-the-tags", so.Instr, d, "what is sorted is the metric's tag list", "")
+		// which of two tags with one key survives is decided by their order AFTER the sort (the compaction keeps the last of equal
+		// neighbours, so that an enriched tag - appended last - wins): the sort must keep equal keys in the order they were appended
+		stable := !eng.CallTo("sort.Sort")(p, so.Instr)
+		c.Check(stable, "duplicates-keep-their-order", so.Instr, d,
+			"the sort that precedes the de-duplication is a STABLE one: sort.Sort is stable only by accident (insertion sort up to 12 elements); with more tags a repeated key keeps one value or the other depending on the order the client sent the tags in - the stored value, the tags hash, the series identity and the shard then depend on tag order",
+			"tags are sorted with sort.Sort")
 	})
 
 	// ---- 2b. the name hash is the hash of the namespace and name that are stored ---------------------------------------------------
@@ -370,7 +376,7 @@ func runC16(c *eng.Ctx) {
 		everyIterationPasses(c, f, st, "no-row-keeps-a-stale-shard-index",
 			"the shard index of EVERY row of the batch is recomputed for this request (rows and their slots are pooled: a row that is skipped keeps the index an earlier request left there, possibly beyond the shard count)")
 		d := c.Fn(cvtT + ".deDupTags")
-		so := c.One(d, eng.CallTo("sort.Sort"), "sort.Sort(kvs)")
+		so := c.One(d, eng.CallTo("sort.Sort", "sort.Stable", "sort.SliceStable", "slices.SortStableFunc"), "sort.Stable(kvs)")
 		facts := p.MustFacts(d)
 		n := 0
 		for _, b := range d.Blocks {
